@@ -129,6 +129,12 @@ func checkUnit(c unitCase) (nt bool, v *verdict) {
 		if gv := gen.FromSUT(got); gv.K != ref.Arr || len(gv.A) != 2 || !bytes.Equal(gv.A[1].S, orig[i]) || !bytes.Equal(gv.A[0].S, []byte("f")) {
 			return nt, &verdict{"read-back-differs", fmt.Sprintf("%s argument %d: array read back %s, written %q", orig[0], i, gv, clip(orig[i]))}
 		}
+		// and one level deeper, as HSCAN (and SSCAN / ZSCAN) replies carry their values: [cursor, [field, value, ...]]
+		_, _, rfinish = sut.VerifFilterRequest(cpsConfig(!c.ReadOff, c.Threshold), gen.ToSUT(ref.Cmd("hscan", "k", "0")), 1)
+		got = rfinish(gen.ToSUT(ref.ArrV(ref.BulkS("0"), ref.ArrV(ref.BulkS("f"), ref.BulkV(stored)))))
+		if gv := gen.FromSUT(got); gv.K != ref.Arr || len(gv.A) != 2 || gv.A[1].K != ref.Arr || len(gv.A[1].A) != 2 || !bytes.Equal(gv.A[1].A[1].S, orig[i]) || !bytes.Equal(gv.A[0].S, []byte("0")) {
+			return nt, &verdict{"read-back-differs", fmt.Sprintf("%s argument %d: HSCAN-shaped reply read back %s, written %q", orig[0], i, gv, clip(orig[i]))}
+		}
 	}
 	// the write's own reply passes through untouched for plain replies
 	if finish != nil {
